@@ -2,6 +2,7 @@ package main
 
 import (
 	"fmt"
+	"go/token"
 	"go/types"
 	"sort"
 	"strings"
@@ -68,6 +69,7 @@ func (vc *VC) atReturnTop(f *frame, vals []Term) {
 			continue
 		}
 		cond := f.evalClause(e, env)
+		vc.curGroup = e.Group
 		f.obligeNoAssume("post", fmt.Sprintf("[%d] %s", k, e.Text), e.Props, f.curInstr().Pos(), cond)
 	}
 	for _, c := range con.Cases {
@@ -172,6 +174,10 @@ func (vc *VC) generate() {
 			if !f.modeOK(r.Mode) {
 				continue
 			}
+			if r.Group != "" {
+				vc.emit("(assert " + f.evalClause(r, env).S + ") ;g=" + r.Group)
+				continue
+			}
 			vc.assume(f.evalClause(r, env))
 		}
 		for _, r := range con.Assumes {
@@ -235,6 +241,10 @@ func (d *Discharger) Discharge(vc *VC, obs []*Obligation) {
 				return
 			}
 			script := vc.obligationScript(ob, false)
+			if ob.Cover {
+				ob.Res = Solve(script, 3, []int{0})
+				return
+			}
 			ob.Res = Solve(script, d.Timeout, d.Solvers)
 		}(ob)
 	}
@@ -318,7 +328,7 @@ func (vc *VC) assumptionsNote(s string) { vc.notes[s] = true }
 // assumeExportedLemmas: bit-level facts proved as bv lemmas hold for the uninterpreted bit
 // functions of int mode (the same expression, evaluated in int mode, speaks about them).
 func (vc *VC) assumeExportedLemmas() {
-	if vc.mode != ModeInt {
+	if vc.mode != ModeInt || !vc.usesBitOps() {
 		return
 	}
 	var names []string
@@ -341,9 +351,31 @@ func (vc *VC) assumeExportedLemmas() {
 						panic(r)
 					}
 				}()
-				vc.assume(vc.evalBool(e.Expr, env))
+				if c.Group != "" {
+					vc.emit("(assert " + vc.evalBool(e.Expr, env).S + ") ;g=" + c.Group)
+				} else {
+					vc.assume(vc.evalBool(e.Expr, env))
+				}
 				vc.notes["bit-level lemma "+n+" (proved in bv mode) assumed for the uninterpreted bit functions"] = true
 			}()
 		}
 	}
+}
+
+// usesBitOps: does the function under contract (or a callee inlined into it) contain bit operations?
+func (vc *VC) usesBitOps() bool {
+	if vc.fn == nil {
+		return false
+	}
+	for _, b := range vc.fn.Blocks {
+		for _, ins := range b.Instrs {
+			if bo, ok := ins.(*ssa.BinOp); ok {
+				switch bo.Op {
+				case token.AND, token.OR, token.XOR, token.AND_NOT, token.SHL, token.SHR:
+					return true
+				}
+			}
+		}
+	}
+	return false
 }
